@@ -383,6 +383,9 @@ static void run_stream_case(uint64_t seed, unsigned long icase)
         r.want = trig ? (pending_at_stop ? ntrig + 1 : (ntrig ? (long)vrng_range(&g, 1, ntrig) : 0)) : (long)vrng_range(&g, 1, exp_us >= 2000 ? 25 : 120);
         if (trig && ntrig == 0 && !pending_at_stop) { pending_at_stop = 1; r.want = 1; }
         r.fail_last = !pending_at_stop && r.nbytes > 1 && r.want > 0 && vrng_chance(&g, 1, 5);
+        // a free-running consumer that is still taking frames when the stop comes (its call in flight must be released)
+        int endless = !trig && vrng_chance(&g, 1, 4);
+        if (endless) { r.want = 1L << 30; r.fail_last = 0; }
         r.t_start = now_s();
         ++C.starts;
         if (camera_start(cam) != Device_Ok) { violation("start-failed", "camera_start failed"); break; }
@@ -418,10 +421,12 @@ static void run_stream_case(uint64_t seed, unsigned long icase)
             finished = 0; ++C.pending_at_stop;
             vbuf_printf(&g_log, "(consumer pending in get_frame: delivered %ld of %ld triggers) ", (long)atomic_load(&r.delivered), ntrig);
         } else {
-            finished = wait_flag(&r.consumer_done, trig ? 0.3 : 60);
+            if (endless) { struct timespec ts = { 0, (long)vrng_range(&g, 1000000, 10000000) }; nanosleep(&ts, 0); }
+            finished = endless ? 0 : wait_flag(&r.consumer_done, trig ? 0.3 : 60);
+            if (endless) ++C.pending_at_stop;
             if (!finished && !g_case_violated) {
                 // with triggering, coalesced triggers can legitimately leave the consumer waiting: stop releases it
-                if (!trig) violation("consumer-stalled", "free-running camera delivered %ld of %ld frames in 60 s", (long)atomic_load(&r.delivered), r.want);
+                if (!trig && !endless) violation("consumer-stalled", "free-running camera delivered %ld of %ld frames in 60 s", (long)atomic_load(&r.delivered), r.want);
             }
         }
         if (r.fail_last && finished && r.fail_last_rc) {
@@ -429,6 +434,14 @@ static void run_stream_case(uint64_t seed, unsigned long icase)
             vbuf_printf(&g_log, "(frame call with a short buffer -> %s) ", r.fail_last_rc == 1 ? "Ok" : "Err");
             if (r.fail_last_rc == 1) violation("short-buffer-accepted", "camera_get_frame accepted a buffer smaller than the image");
             else if (camera_get_state(cam) == DeviceState_Running) violation("running-after-failed-frame-call", "HAL still reports Running after a failed frame call");
+        }
+        if (!finished && vrng_chance(&g, 1, endless ? 2 : 3)) {
+            // the settings are applied once more right before the stop, while a frame call may be pending:
+            // an image in flight is discarded by that, and the stop must release the call all the same
+            struct CameraProperties q = p; q.exposure_time_us = exp_us + (float)vrng_range(&g, 1, 40);
+            vbuf_printf(&g_log, "live-set-then-stop ");
+            if (camera_set(cam, &q) != Device_Ok) violation("set-failed", "camera_set with unchanged shape and trigger mode failed while running");
+            ++C.live_sets;
         }
         // ---- stop must return and release a pending frame call ------------------------------------
         vbuf_printf(&g_log, "stop ");
